@@ -121,6 +121,12 @@ def roundHalfEven (x : Rat) : Int :=
   let d := x - f
   if d < (1:Rat)/2 then f else if (1:Rat)/2 < d then f + 1 else if f % 2 = 0 then f else f + 1
 
+/-- Python's `round(x, n)` on a rational (`Fraction.__round__` / `mpq.__round__` with `ndigits`):
+round half to even at the `n`-th decimal digit (`n < 0`: tens, hundreds, …); the result is a rational -/
+def roundNdigits (x : Rat) (n : Int) : Rat :=
+  if 0 ≤ n then (roundHalfEven (x * (10 : Rat) ^ n.toNat) : Rat) / (10 : Rat) ^ n.toNat
+  else (roundHalfEven (x / (10 : Rat) ^ (-n).toNat) : Rat) * (10 : Rat) ^ (-n).toNat
+
 def pyFloorDiv (a b : Rat) : Int := (a / b).floor
 def pyMod (a b : Rat) : Rat := a - b * (a / b).floor
 def pyTrunc (x : Rat) : Int := if 0 ≤ x then x.floor else x.ceil
@@ -237,6 +243,10 @@ def handle : List Sexp → Sexp
     match rat? a with
     | some a => unop op a
     | _ => Sexp.err "bad-args"
+  | [.atom "round-nd", a, n] =>
+    match rat? a, int? n with
+    | some a, some n => ofRat (roundNdigits a n)
+    | _, _ => Sexp.err "bad-args"
   | [.atom "parse-decimal", .atom s] =>
     match parseDecimal s with
     | some r => .list [.atom "ok", ofRat r]
